@@ -13,6 +13,15 @@ CHECKS = {
     "C06": dict(engine="TermMachine", ref="5/C06",
                 text="Same lenses as C01 built under `lazy`: the declared inputs/output of every lazily built term must equal the typing rules TI/TO of Sem.tla (which TLC checks to be sound w.r.t. Eval: Inv_TypeSound), the eager re-evaluation must keep the output domain, a subset of inputs, a well-shaped array and in-range bounded integers.",
                 note="trusted as C01; the op-domain catalogue (find_domain vs array implementation) is covered by the OpTyping engine when present"),
+    "C02": dict(engine="Judge", ref="5/C02",
+                text="Every rule firing of the exact interpretations (eager, normalize, lazy, sequential, unfold, optimize) recorded by runtime wrappers while the TermMachine lens programs execute is validated by TLC (spec/Judge.tla): the reflected term of the rule's arguments and the rule's result are evaluated with the L1 denotation over the whole finite input space and must agree, with inputs(rhs) within inputs(lhs). Ground results are compared with tolerance against the table TLC computes for the lhs.",
+                note="trusted: TLC + Sem.tla, the serialiser harness/fast.py (field-by-field copy of _ast_values; floats snapped to small rationals or logs of small ratios, otherwise the event is skipped and counted), the carrier filter (events pairing max/min with mul on negative data are not judged); per-rule cap bounds the volume; coverage = rule functions that fired (evidence.rules)"),
+    "C04": dict(engine="TermMachine", ref="5/C04",
+                text="TLC enumerates (f, substitution map) pairs - numbers, variables incl. renamings onto existing inputs, swaps and diagonals, index tensors with fresh/colliding inputs, slices, integer expressions, keys that are not inputs - and computes Den of the simultaneous substitution; each pair is executed as f(**subs) eagerly (values, inputs subset) and lazily (inputs exactly as predicted, values by probing), renamings both as Variable and as string.",
+                note="trusted as C01; bounds: tensors with 1-3 inputs of sizes 2-3, one substitution step (two in thorough)"),
+    "C05": dict(engine="TermMachine", ref="5/C05",
+                text="TLC enumerates nestings of binder-introducing constructors (Reduce, Lambda, Cat part names, Subs keys, products under normalize = Contraction) where every bound and free name ranges over {a,b,c}; each is built under reflect, lazy, normalize and eager and reinterpreted: no bound (or mangled) name among the inputs, inputs exactly the free names, values equal Den (no capture).",
+                note="trusted as C01; bounds: 2 leaves + 2 constructor steps (3 in thorough), 3 names of size 2"),
 }
 
 NOT_YET = "check not built yet in this round (planned, see DESIGN.md section 5)"
